@@ -43,6 +43,8 @@ TQueue ==
   /\ UNCHANGED bad
 
 TUpdate == IsEvent("fupd") /\ FUpdate(Ev.id) /\ UNCHANGED bad
+\* StartSending: changes nothing in what the program means (ids keep counting, the election id stays)
+TSend == IsEvent("fsend") /\ UNCHANGED <<fvars, bad>>
 
 TSent ==
   /\ IsEvent("fsent")
@@ -54,7 +56,7 @@ TSent ==
                       THEN "fluentIds" ELSE "fluentSent"))
   /\ UNCHANGED <<fvars, bad>>
 
-FTNext == TStart \/ TNew \/ TCall \/ TQueue \/ TUpdate \/ TSent
+FTNext == TStart \/ TNew \/ TCall \/ TQueue \/ TUpdate \/ TSend \/ TSent
 FTSpec == FTInit /\ [][FTNext]_ftvars
 
 Matched == TLCGet("stats").diameter - 1
